@@ -1,10 +1,11 @@
 """C06 — FITS serialisation round-trips every table exactly, in the documented layout.
 Proof: PsV/Props/C06.lean (C06_roundtrip, strides_reconstructed, legacy_order_key, missing_extents_defaults,
-       be_bits_roundtrip, decode_encode).
+       be_bits_roundtrip, decode_encode, aux_values_gain_blanks_only — aux values with apostrophes included).
 Tie (exact): (a) bytes of real write_fits / write_fits_mem → Lean decodeFits = writeCore t, and encodeFits (writeCore t) is
 byte-identical to the real file; (b) Lean-encoded files (current layout and legacy variants) → real read_fits and
 read_fits_mem = model readCore; (c) real write → real read: operator==, field-by-field bits, identical evaluation — the
-property's own oracle, computed here without the model; (d) shipped test_data/*.fits: real readers = readCore (decodeFits
+property's own oracle, computed here without the model (aux values: 14 classes with apostrophes, see harness/fits_common.h
+gen_value_q; read back = written + blanks only); (d) shipped test_data/*.fits: real readers = readCore (decodeFits
 bytes), digests committed in bin/props/C06_digests.json."""
 import glob, hashlib, json, os
 from . import fitscommon as F
@@ -38,7 +39,7 @@ def run(ctx, n_override=None):
             broken("harness build failed", mode=mode); continue
         base = os.path.join(ctx.scratch, "c06" + mode)
         cases, impl, stats = base + ".in", base + ".impl", base + ".stats"
-        rc, out, err = ctx.run([exe, "gen", str(n), cases, impl, stats, str(maxcoef), ctx.scratch], timeout=1500)
+        rc, out, err = ctx.run([exe, "gen", str(n), cases, impl, stats, str(maxcoef), ctx.scratch, "quotes"], timeout=1500)
         if rc != 0:
             ctx.tie_ok = False
             ctx.violation({"harness_rc": rc, "stderr": err[-3000:], "replay_cmd": replay_cmd},
@@ -79,10 +80,13 @@ def run(ctx, n_override=None):
                 flags = dict(x.split("=") for x in head.split()[2:])
                 # (c) the property, directly on the implementation
                 exp = "ok " + F.dump_table(F.expected_after_roundtrip(cur))
-                rep = {"table": cur_line[:4000], "impl": i[:4000], "expected": exp[:4000], "replay_cmd": replay_cmd, "line": k + 1}
+                rep = {"table": cur_line[:4000], "impl": i[:4000], "expected": exp[:4000], "replay_cmd": replay_cmd, "line": k + 1,
+                       "aux_written": cur["aux"], "aux_read": aux_of(rb)}
                 if flags.get("built") != "1": broken("harness could not build the table it generated", line=k + 1)
                 elif flags.get("werr") != "-": ctx.report("write-fails", rep, "write_fits%s failed on a well-formed table" % ("" if flags["backend"] == "disk" else "_mem"))
-                elif rb != exp: ctx.report("roundtrip-fields:" + first_diff(rb, exp), rep, "table read back differs from the table written (%s back end): %s" % (flags["backend"], first_diff(rb, exp)))
+                elif rb != exp:
+                    if padding_only(rb, exp, cur): broken("aux values read back with the right text but another number of trailing blanks than the FITS rule gives", impl=aux_diff(rb, cur)[:600], line=k + 1)
+                    else: ctx.report("roundtrip-fields:" + first_diff(rb, exp), rep, "table read back differs from the table written (%s back end): %s%s" % (flags["backend"], first_diff(rb, exp), aux_diff(rb, cur)))
                 elif flags.get("same_readers") != "1": ctx.report("readers-differ", rep, "read_fits and read_fits_mem return different tables for the same bytes")
                 elif flags.get("eq") != "1": ctx.report("operator==", rep, "table read back does not compare equal to the original")
                 elif int(flags.get("eval", "0")) < 1: ctx.report("evaluation-differs", rep, "table read back evaluates differently")
@@ -102,9 +106,11 @@ def run(ctx, n_override=None):
                 if mdump != idump or "same" not in ih:
                     broken("(b) Lean-encoded file: real reader vs model reader", variant=c, model=mdump[:600], impl=idump[:600], readers=ih, table=cur_line[:1500], line=k + 1)
                 exp = "ok " + F.dump_table(F.expected_after_roundtrip(cur, drop_ext=bool(vm & 1), drop_per=bool(vm & 2)))
-                if idump != exp:
-                    ctx.report("independent-writer:" + first_diff(idump, exp), {"table": cur_line[:4000], "variant": c, "impl": idump[:4000], "expected": exp[:4000], "replay_cmd": replay_cmd},
-                               "a file in the documented layout (single ORDER key: %s, EXTENTS: %s, PERIODn: %s) written by an independent encoder is not read as the table it describes: %s" % (single, not vm & 1, not vm & 2, first_diff(idump, exp)))
+                if idump != exp and padding_only(idump, exp, cur):
+                    broken("aux values of a Lean-encoded file read with the right text but another number of trailing blanks than the FITS rule gives", impl=aux_diff(idump, cur)[:600], line=k + 1)
+                elif idump != exp:
+                    ctx.report("independent-writer:" + first_diff(idump, exp), {"table": cur_line[:4000], "variant": c, "impl": idump[:4000], "expected": exp[:4000], "replay_cmd": replay_cmd, "aux_written": cur["aux"], "aux_read": aux_of(idump)},
+                               "a file in the documented layout (single ORDER key: %s, EXTENTS: %s, PERIODn: %s) written by an independent encoder is not read as the table it describes: %s" % (single, not vm & 1, not vm & 2, first_diff(idump, exp) + aux_diff(idump, cur)))
             elif w[0] == "F":
                 evals += 1
                 name = w[1]
@@ -128,12 +134,16 @@ def run(ctx, n_override=None):
     ctx.coverage["evaluations"] = evals
     ctx.coverage["distinct_nontrivial"] = len(seen)
     ctx.coverage["rule"] = ("tables drawn from VERIF_SEED by harness/fits_common.h (1..9 dims, unequal axis lengths, orders 0..5, extreme coefficient bit patterns, "
-                            "random/non-default extents, 0..40 aux keys, disk/memory alternating); a table counts as distinct non-trivial when real write → real read "
+                            "random/non-default extents, 0..41 aux keys, disk/memory alternating; aux values: plain printable text and — 2 in 5, plus one forced value per table for "
+                            "the first 28 tables and every third one after — 14 classes with apostrophes: single inside, leading, trailing, both, adjacent runs inside / at the "
+                            "start / at the end, apostrophes only (1..34), stored form at the card limit (length + apostrophes = 66..68), dense mix, around the padding-to-8 "
+                            "boundary, next to blank or slash, followed by trailing blanks, ending in '&'; one table in three also gets a key next to a reserved or FITS-semantic name (TYP, ORDE0, MYORDER, EXTNAM, ENDX, HISTOR, ...); counts in input_distribution.aux_values); a table counts as distinct non-trivial when real write → real read "
                             "reproduced every field, compared equal and evaluated identically; each table additionally yields 1 byte-identity check and 4 or 8 Lean-encoded variants")
     ctx.coverage["input_distribution"] = stats_all
     ctx.assumptions += [
         "cfitsio 4.2 is modelled at its API (abstract store), validated each run by byte-identity of encodeFits (writeCore t) with the real file and by the real readers on Lean-encoded files",
-        "aux keys: standard 1..8 character keywords [A-Z0-9] accepted by write_key, not one of the FITS-semantic names (END, HISTORY, CONTINUE, EXTNAME, HDUNAME, BSCALE, BZERO, BLANK, ...); values printable ASCII without apostrophes, at most 68 characters (quotes: C16)",
+        "aux keys: standard 1..8 character keywords [A-Z0-9] accepted by write_key, not one of the FITS-semantic names (END, HISTORY, CONTINUE, EXTNAME, HDUNAME, BSCALE, BZERO, BLANK, ...); values printable ASCII, apostrophes included, as write_key accepts them for a standard keyword (length + number of apostrophes <= 68); long (HIERARCH) keys: C16",
+        "an aux value read back may differ from the value written by trailing blanks only; the number of blanks is checked against the FITS rule (stored form, apostrophes doubled, padded to 8 characters) — a disagreement with that rule alone is reported as a broken tie, not as a property violation",
         "PERIODn values are not part of the property (15-digit decimal text); generated periods are multiples of 0.25 so that they round-trip",
         "array sizes below 2^63 (no wrap-around in the stride products)",
     ]
@@ -155,6 +165,36 @@ def first_diff(a, b):
     except Exception:
         pass
     return "format"
+
+
+def padding_only(got, exp, written):
+    """the two dumps differ only in the number of trailing blanks of aux values, and C06's wording (value followed by
+    blanks only) still holds: a disagreement with the FITS padding rule, not with the property"""
+    try:
+        if got.split()[0] != "ok" or exp.split()[0] != "ok": return False
+        tg, te = F.parse_table(got.split()[1:]), F.parse_table(exp.split()[1:])
+        return all(tg[k] == te[k] for k in tg if k != "aux") and F.aux_only_blanks_gained(tg["aux"], written["aux"])
+    except Exception:
+        return False
+
+
+def aux_of(dump):
+    try: return F.parse_table(dump.split()[1:])["aux"] if dump.split()[0] == "ok" else None
+    except Exception: return None
+
+
+def aux_diff(got, written):
+    """the first auxiliary key that did not survive, in readable form"""
+    try:
+        if got.split()[0] != "ok": return ""
+        tg = F.parse_table(got.split()[1:])
+        if len(tg["aux"]) != len(written["aux"]): return " (%d keys written, %d read)" % (len(written["aux"]), len(tg["aux"]))
+        for (kr, vr), (kw, vw) in zip(tg["aux"], written["aux"]):
+            if kr != kw: return " (key %r read as %r)" % (kw, kr)
+            if not F.aux_only_blanks_gained([(kr, vr)], [(kw, vw)]): return " (key %s: wrote %r, read %r)" % (kw, vw, vr)
+    except Exception:
+        pass
+    return ""
 
 
 def replay(ctx, path):
